@@ -71,6 +71,8 @@ pub enum Mutation {
     ToObject(u8),
     EmptyString(u8),
     OddHex(u8),
+    /// a hex field of the right length whose bytes are another value of the same length (for a public key: not a point)
+    OtherBytes(u8, u8),
     NonHex(u8, u8),
     Longer(u8, u8),
     Shorter(u8, u8),
@@ -218,6 +220,19 @@ pub fn render_body(endpoint: usize, b: &Body) -> Vec<u8> {
                         *t = json!(s);
                     }
                 }
+                Mutation::OtherBytes(i, fill) => {
+                    let t = get_mut(&mut v, &pick(*i)).unwrap();
+                    if let Some(s) = t.as_str() {
+                        if s.len() % 2 == 0 && s.len() >= 2 && s.bytes().all(|c| c.is_ascii_hexdigit()) {
+                            // same length, valid hex: a bad prefix byte followed by a repeated filler (0x00.. is no curve point)
+                            let mut o = format!("{:02x}", [0x05u8, 0x02, 0x00, 0xff][*fill as usize % 4]);
+                            while o.len() < s.len() {
+                                o.push_str(&format!("{:02x}", fill / 4));
+                            }
+                            *t = json!(o);
+                        }
+                    }
+                }
                 Mutation::NonHex(i, pos) => {
                     let t = get_mut(&mut v, &pick(*i)).unwrap();
                     if let Some(s) = t.as_str() {
@@ -363,6 +378,7 @@ impl Campaign for C15 {
             1 => any::<u8>().prop_map(Mutation::ToObject),
             1 => any::<u8>().prop_map(Mutation::EmptyString),
             1 => any::<u8>().prop_map(Mutation::OddHex),
+            2 => (any::<u8>(), any::<u8>()).prop_map(|(a, b)| Mutation::OtherBytes(a, b)),
             1 => (any::<u8>(), any::<u8>()).prop_map(|(a, b)| Mutation::NonHex(a, b)),
             1 => (any::<u8>(), any::<u8>()).prop_map(|(a, b)| Mutation::Longer(a, b)),
             1 => (any::<u8>(), any::<u8>()).prop_map(|(a, b)| Mutation::Shorter(a, b)),
@@ -534,7 +550,7 @@ pub fn run(ctx: &Ctx) -> i32 {
     let stats = runner::run_campaign(&camp, ctx, if ctx.thorough() { 8000 } else { 1500 });
     let mut ev = Evidence::default();
     ev.level = "exploration".into();
-    ev.rule = "sequences of 1-11 HTTP requests over raw TCP to the real warp router in front of the real tower (fresh tower per sequence, prepared with fresh / watched / responded / expired / out-of-slots users and, in the worlds with maximal subscriptions, a user holding 140 appointments; in 15% of the sequences bitcoind is flagged unreachable): valid bodies of the four endpoints mutated structurally (drop / null / retype / empty / odd-length / non-hex / longer / shorter / huge / non-ASCII / extra / wrapped / duplicate key / padded to limit-2..limit+2 / trailing garbage / negative / float / 2^32), raw bytes, odd JSON texts, nesting up to 3000, every method, known and unknown paths; oracle: status in {200, 4xx, 503}, documented JSON error object for well-addressed requests, 200 bodies parse as the documented reply, database identical after every non-200, a reply always arrives. counters.requests = HTTP requests sent. Non-trivial = at least one request got past HTTP-level validation into the tower; distinct = distinct sets of (status, error_code) seen.".into();
+    ev.rule = "sequences of 1-11 HTTP requests over raw TCP to the real warp router in front of the real tower (fresh tower per sequence, prepared with fresh / watched / responded / expired / out-of-slots users and, in the worlds with maximal subscriptions, a user holding 140 appointments; in 15% of the sequences bitcoind is flagged unreachable): valid bodies of the four endpoints mutated structurally (drop / null / retype / empty / odd-length / non-hex / well-formed hex of the right length that is not a valid value (a public key that is no curve point) / longer / shorter / huge / non-ASCII / extra / wrapped / duplicate key / padded to limit-2..limit+2 / trailing garbage / negative / float / 2^32), raw bytes, odd JSON texts, nesting up to 3000, every method, known and unknown paths; oracle: status in {200, 4xx, 503}, documented JSON error object for well-addressed requests, 200 bodies parse as the documented reply, database identical after every non-200, a reply always arrives. counters.requests = HTTP requests sent. Non-trivial = at least one request got past HTTP-level validation into the tower; distinct = distinct sets of (status, error_code) seen.".into();
     ev.assumptions = vec![
         "every request is syntactically valid HTTP/1.1 with a Content-Length header".into(),
         "the gRPC hop is tonic over loopback, as in production".into(),
